@@ -121,3 +121,43 @@ package yubiattest
 //@       forall(j, 0 <= j && j < hsize(hash), emAt(k, mOf(pub, sig), k - hsize(hash) + j) == elems(hashed)[off(hashed) + j])) ==> entry(ok) == 1
 //@     invariant 2 <= i && i <= k - correctTLen - 1 && (ok == 0 || ok == 1)
 //@     invariant ok == 1 <==> (entry(ok) == 1 && forall(j, 2 <= j && j < i, emAt(k, mOf(pub, sig), j) == 255))
+
+//@ # ---------------------------------------------------------------- C16: device serial in ModHex
+//@ # the ModHex alphabet (Yubico): nibble value -> character code of "cbdefghijklnrtuv"
+//@ ghost pure func mhchar(n int) int =
+//@   n == 0 ? 99 : n == 1 ? 98 : n == 2 ? 100 : n == 3 ? 101 : n == 4 ? 102 : n == 5 ? 103 : n == 6 ? 104 : n == 7 ? 105 :
+//@   n == 8 ? 106 : n == 9 ? 107 : n == 10 ? 108 : n == 11 ? 110 : n == 12 ? 114 : n == 13 ? 116 : n == 14 ? 117 : 118
+//@ # i-th ModHex character (i in 0..7) of a serial of n bytes (n = 3: two leading 'c'), s/soff: the serial bytes
+//@ ghost func mhAt(s bytes, soff int, n int, i int) int =
+//@   i < 8 - 2 * n ? 99 :
+//@   (i - (8 - 2 * n)) % 2 == 0 ? mhchar(s[soff + (i - (8 - 2 * n)) / 2] / 16) : mhchar(s[soff + (i - (8 - 2 * n)) / 2] % 16)
+//@ ghost func isSerialExt(cert *x509.Certificate, j int) bool =
+//@   oidstr(elems(cert.Extensions[j].Id), off(cert.Extensions[j].Id), len(cert.Extensions[j].Id)) == "1.3.6.1.4.1.41482.3.7"
+
+//@ func ModHex(cert)
+//@   requires cert != nil
+//@   ensures [no-serial-is-an-error] forall(j, 0 <= j && j < len(cert.Extensions), !isSerialExt(cert, j)) ==> err != nil
+//@   ensures [short-extension-is-an-error] exists(j, 0 <= j && j < len(cert.Extensions), isSerialExt(cert, j) && len(cert.Extensions[j].Value) < 2) ==> err != nil
+//@   ensures [last-serial-decides] err == nil ==> exists(j, 0 <= j && j < len(cert.Extensions), isSerialExt(cert, j) &&
+//@     forall(k, j < k && k < len(cert.Extensions), !isSerialExt(cert, k)) &&
+//@     (len(cert.Extensions[j].Value) == 5 || len(cert.Extensions[j].Value) == 6) && len(modhex) == 8 &&
+//@     forall(i, 0 <= i && i < 8, modhex[i] == mhAt(elems(cert.Extensions[j].Value), off(cert.Extensions[j].Value) + 2, len(cert.Extensions[j].Value) - 2, i)))
+//@   ensures [wrong-length-is-an-error] forall(j, 0 <= j && j < len(cert.Extensions), isSerialExt(cert, j) ==>
+//@     !(len(cert.Extensions[j].Value) == 5 || len(cert.Extensions[j].Value) == 6)) ==> err != nil
+//@   ensures err != nil ==> modhex == ""
+//@   loop 1:
+//@     invariant serial == nil ==> forall(j, 0 <= j && j <= rangeindex, !isSerialExt(cert, j))
+//@     invariant forall(j, 0 <= j && j <= rangeindex, isSerialExt(cert, j) ==> len(cert.Extensions[j].Value) >= 2)
+//@     invariant serial != nil ==> exists(j, 0 <= j && j <= rangeindex, isSerialExt(cert, j) &&
+//@       forall(k, j < k && k <= rangeindex, !isSerialExt(cert, k)) &&
+//@       arr(serial) == arr(cert.Extensions[j].Value) && off(serial) == off(cert.Extensions[j].Value) + 2 && len(serial) == len(cert.Extensions[j].Value) - 2)
+//@   loop 2:
+//@     invariant (len(serial) == 3 || len(serial) == 4) && len(dst) == 8 && fresh(arr(dst)) && off(dst) == 0
+//@     invariant dstidx == (8 - 2 * len(serial)) + 2 * (rangeindex#2 + 1)
+//@     invariant forall(i, 0 <= i && i < dstidx, dst[i] == mhAt(elems(serial), off(serial), len(serial), i))
+//@     invariant exists(j, 0 <= j && j < len(cert.Extensions), isSerialExt(cert, j) &&
+//@       forall(k, j < k && k < len(cert.Extensions), !isSerialExt(cert, k)) &&
+//@       arr(serial) == arr(cert.Extensions[j].Value) && off(serial) == off(cert.Extensions[j].Value) + 2 && len(serial) == len(cert.Extensions[j].Value) - 2)
+
+//@ # distinct serials give distinct strings: the alphabet has 16 distinct characters
+//@ lemma mhchar_injective(a int, b int): (0 <= a && a < 16 && 0 <= b && b < 16 && mhchar(a) == mhchar(b)) ==> a == b
